@@ -2,6 +2,7 @@
 from ..cfg import cfg_of
 from ..defuse import du_of, walk, peel, callee_name, contains, fmt
 from ..conds import lits_of
+from ..common import root_fn
 from ..callgraph import cg_of
 from ..roles import roles_of
 from ..common import (arg_term, derives_from_block, call_named, contains_call, assigns_of_return,
@@ -491,6 +492,56 @@ def check_content_unwraps(facts, res, cg):
                                               m.path, st.rv.j["op"].replace("WithOverflow", "")), m.loc(st.line))
     res.instance("H8", "%d overflow-checked arithmetic sites on the reload / refresh paths inspected" % n8, None)
     res.floor("H8", "overflow-checked arithmetic sites inspected", n8, 3)
+
+    # ------------------------------------------------------------------ H9 a failed object load is never absorbed by the reader
+    # The verdict of the digest checks reaches the caller: in `read` (closures and private helpers included) the Result of every call
+    # that loads a stored object (a crate function that reaches DataStorage::read_object) is propagated with `?`, returned, or
+    # unwrapped (a panic is a report). `if let Ok(obj) = load(..) { insert }` with nothing on the Err side turns "the pack was damaged"
+    # into "the object is not part of the document": read() answers Ok with a document nobody committed.
+    from .c09 import _result_handled
+    from ..common import members_of as _mo9
+    res.rule("H9", "the document reader never absorbs a failed object load (Err propagated, returned or unwrapped)")
+    rd = facts.body("melda::Melda::read")
+    n9 = 0
+    objr = roles_of(facts).path("obj_reader")
+    if rd is not None and objr:
+        for m in _mo9(facts, rd):
+            mcfg = cfg_of(m)
+            for s_ in cg.sites[m.path]:
+                if s_.fanout or s_.term.dest is None or not s_.targets:
+                    continue
+                if not any((t_.path == objr or cg.reaches(t_, objr)) and "Result<" in (t_.local_ty(0) or "") for t_ in s_.targets):
+                    continue
+                n9 += 1
+                how = _result_handled(m, s_.block, s_.term.dest)
+                ok = how in ("propagated with ?", "returned") or (how or "").startswith("consumed by unwrap") or (how or "").startswith("consumed by expect")
+                if how == "matched":
+                    # a match is fine when its Err side does something of its own (returns an error, panics, records it)
+                    dl = s_.term.dest.local
+                    ok = False
+                    for blk in m.blocks:
+                        if blk.cleanup or blk.term.kind != "switch":
+                            continue
+                        if not any(st.kind == "assign" and st.rv.kind == "discr" and st.rv.place().local == dl and st.place.local == blk.term.discr.local()
+                                   for st in blk.stmts):
+                            continue
+                        edges = dict(blk.term.switch_edges())
+                        tg = blk.term.j.get("targets", [])
+                        err_t = [t2 for v2, t2 in tg if v2 == 1] or [blk.term.j.get("otherwise")]
+                        ok_t = [t2 for v2, t2 in tg if v2 == 0]
+                        if not err_t or err_t[0] is None or not ok_t:
+                            continue
+                        only_err = mcfg.reachable_blocks(err_t[0]) | {err_t[0]}
+                        only_err -= (mcfg.reachable_blocks(ok_t[0]) | {ok_t[0]})
+                        acts = [x for x in only_err if m.blocks[x].term.kind == "call" and m.blocks[x].term.callee is not None and
+                                m.blocks[x].term.callee.name not in ("drop", "drop_in_place")]
+                        ok = bool(acts)
+                res.instance("H9", "%s: result of %s is %s: %s" % (m.path, s_.name(), how or "DROPPED", ok), s_.loc())
+                if not ok:
+                    res.violation("H9", "%s|failed-load-absorbed:%s" % (root_fn(m).path, s_.name().split("::")[-1]),
+                                  "%s absorbs a failed load of a stored object (%s is %s): an object whose pack is damaged or missing is left out of the "
+                                  "document and read() still answers Ok" % (m.path, s_.name(), how or "dropped"), s_.loc())
+    res.floor("H9", "object loads on the read path", n9, 1)
 
 
 def _consts(t):
